@@ -496,6 +496,19 @@ def run(task, ctx):
                     ctx.count("problems")
                     if dspec["name"] in ("SqrtQuadratic", "Pinball"):
                         prox_checks(ctx, d, dspec, y, base)
+                    if dspec["name"] in ("Logistic", "LogisticGroup", "QuadraticSVC") and xid == "tall6x3" and y.ndim == 1:
+                        # the same labels passed as an integer array (what users of the solver API hold): same numbers
+                        yi = y.astype(np.int64)
+                        di, dsi, f3 = make(dspec, Xf, Xs, yi)
+                        for w in ws[:3]:
+                            if not in_range(dspec, Xf, y, w):
+                                continue
+                            f2, obs = eval_point(di, dsi, dspec, Xf, Xs, yi, w)
+                            ctx.count("integer_label_points")
+                            for acc, kind, got, exp in f3 + f2:
+                                ctx.violation(f"datafit:{dspec['name']}.{acc}", kind, dict(base, w=w.tolist(), int_labels=True), got, exp,
+                                              where=dict(datafit=dspec["name"], accessor=acc, integer_labels=True))
+                            f3 = []
         ctx.sample(dict(dspec=dspec0, designs=len(designs(tier))))
 
 
@@ -564,11 +577,14 @@ def replay(params):
         fails, u = prox_eval(d, params["dspec"], y, np.array(params["w"], dtype=float), params["step"])
         return dict(violated=bool(fails), kinds=sorted({f"{a}:{k}" for a, k, _, _ in fails}), prox=fhex(u))
     X = np.array(params["X"], dtype=float)
+    INT = bool(params.get("int_labels"))
     y = np.array(params["y"], dtype=float)
     y = np.asfortranarray(y) if y.ndim == 2 else y
     Xf = np.asfortranarray(X)
     Xs = sp.csc_matrix(X)
     dspec = params["dspec"]
+    if INT:
+        y = y.astype(np.int64)
     d, ds_, fails = make(dspec, Xf, Xs, y)
     fails += check_init(d, ds_, dspec, X, Xs, y)
     obs = []
